@@ -667,6 +667,8 @@ class EngineA:
         if status == "end":
             return False
         v = self._check_state(w, i, op)
+        if v is None and op.startswith("w_"):
+            v = self._check_kept(w, i, op)
         if v is not None and self.prop == "C19":
             res.bump("probe:c04_discrepancy_in_c19_history")
             return False
@@ -822,7 +824,27 @@ class EngineA:
                     i,
                     f"{name}[{key}] has shape {gs} values {np.asarray(ga).tolist()}, model says shape {rshape} values {want.tolist()}",
                 )
+            self._retain(w, name, key, got, want)
         res.bump("probe:region_read")
+        return None
+
+    def _retain(self, w, name, key, got, want):
+        """Keep a returned region object: what a read returned is a value, later writes must not change it."""
+        kept = w.setdefault("kept", [])
+        kept.append((name, list(key), got, np.array(want, copy=True)))
+        if len(kept) > 4:
+            kept.pop(0)
+
+    def _check_kept(self, w, i, op):
+        for name, key, got, want in w.get("kept", []):
+            if name == "D":
+                now = np.asarray(got.data)
+            else:
+                now, problem = densify(got.subs, got.vals, tuple(int(s) for s in got.shape))
+                if problem is not None:
+                    now = None
+            if now is None or now.shape != want.shape or not np.array_equal(now, want):
+                return self._viol("earlier_read_result_unchanged_by_later_write", op, i, f"the object returned earlier by {name}[{key}] changed after a later write: now {None if now is None else now.tolist()}, was {want.tolist()}")
         return None
 
     # ---- writes
